@@ -44,6 +44,7 @@ type Frame struct {
 	view      *regView
 	lanes     *laneSpec
 	loopEntry map[int]*State // state on entry to each loop cut at an invariant (spec builtin atloop)
+	cutCarried []Term        // havoc symbols of the loop-carried values (header phis other than the induction variable) of the loops cut so far (spec builtin loopfree)
 	onCall    func(f *Frame, st *State, call ssa.CallInstruction, args []*Val) // hook (assert-at, C06 ...)
 }
 
